@@ -20,7 +20,17 @@ def _impl(seq, debug=False):
     try:
         with common.debug_logging(debug):
             out = icao.significant_cloud(list(seq))
-        return ''.join('T' if bool(b) else 'F' for b in out), [type(b).__name__ for b in out if not isinstance(b, bool)]
+        res = ''.join('T' if bool(b) else 'F' for b in out)
+        odd = [type(b).__name__ for b in out if not isinstance(b, bool)]
+        # the returned list is the caller's: whatever the caller does with it afterwards (here: every flag inverted in
+        # place, one appended) must not show in a later call with an equal argument
+        if isinstance(out, list):
+            out[:] = [not bool(b) for b in out] + [True]
+            again = icao.significant_cloud(list(seq))
+            res2 = ''.join('T' if bool(b) else 'F' for b in again)
+            if res2 != res:
+                return f'STATE:{res}->{res2}', odd
+        return res, odd
     except Exception as e:  # any exception on a list of ints is a property failure (total function)
         return f'EXC:{type(e).__name__}', []
 
